@@ -298,6 +298,16 @@ func solveOne(r *FuncResult, ob *Oblig, cfg solveCfg) {
 			ob.Status = "cover-ok"
 		case "unsat":
 			ob.Status = "cover-dead"
+			if ob.Hyp2.T != "" {
+				// infeasible after the assumption: a problem only if the path was feasible before it
+				s2, _ := r.Ctx.Script("", []Term{ob.Hyp2}, false)
+				o2 := solveScript(s2, cfg.quickS, cfg.fullS)
+				if o2.status == "unsat" {
+					ob.Status = "cover-ok" // dead code
+				} else if o2.status != "sat" {
+					ob.Status = "cover-unknown"
+				}
+			}
 		default:
 			ob.Status = "cover-unknown"
 		}
